@@ -1,7 +1,7 @@
 (* One entry point for the correspondence check: a request (an S-expression naming a stage and its input) is
    decoded, run through the model, and the observable encoded back.  Used extracted (driver/) and inside Coq. *)
 From Coq Require Import List String Ascii Bool NArith ZArith.
-From Yae Require Import Base.Sexp Model.Ty Gen.Generated Model.Unify Model.Lexer Model.Literal Model.Cst Model.Pratt Model.Desugar Model.Check Model.Num Model.Val Model.Render Model.Builtins Model.Eval Model.VM Model.Verifier.
+From Yae Require Import Base.Sexp Model.Ty Gen.Generated Model.Unify Model.Lexer Model.Literal Model.Cst Model.Pratt Model.Desugar Model.Check Model.Num Model.Val Model.Render Model.Builtins Model.Eval Model.VM Model.Verifier Model.Sql.
 Import ListNotations.
 Open Scope string_scope.
 
@@ -303,6 +303,15 @@ Definition run_bytecode (args : list sexp) : sexp :=
   | _ => bad
   end.
 
+(* (sql crit venv) *)
+Definition run_sql (args : list sexp) : sexp :=
+  match args with
+  | [c; ve] => match dec_crit c, dec_venv ve with
+               | Some c', Some ve' => match sql_text ops ve' c' 0%N with Some t => L [A "ok"; eNs t] | None => A "err" end
+               | _, _ => bad end
+  | _ => bad
+  end.
+
 Definition dispatch (req : sexp) : sexp :=
   match req with
   | L (A tag :: args) =>
@@ -326,6 +335,7 @@ Definition dispatch (req : sexp) : sexp :=
       else if tag =? "vmcsrc" then run_vm (Some vm_limit) args
       else if tag =? "bytecode" then run_bytecode args
       else if tag =? "verify" then run_verify args
+      else if tag =? "sql" then run_sql args
       else bad
   | _ => bad
   end.
